@@ -91,6 +91,16 @@ func (f *Fixture) MkTx(st *state.StateDB, number *big.Int, op string) (*types.Tr
 	case "vsettle":
 		v := val()
 		return stk(v.Operator, staking.ValidatorSettle, &staking.TxValidatorSettle{MainAddress: v.Main})
+	case "vcreatelow": // validator creation whose gas limit covers the intrinsic gas but not the V5 creation surcharge
+		v := val()
+		data, err := staking.EncodeMessage(staking.ValidatorCreate, &staking.TxCreateValidator{Name: v.Name, OperatorAddress: v.Operator.Addr, Coinbase: v.Coinbase,
+			MainPubKey: v.MainPub, BlsPubKey: v.BlsPub, Value: new(big.Int).Set(v.Token), Nonce: st.GetNonce(v.Operator.Addr),
+			CommissionRate: 1000, RiskObligation: 10000, AcceptDelegation: 1, Role: v.Role})
+		if err != nil {
+			return nil, err
+		}
+		mod := params.StakingModuleAddress
+		return sign(v.Operator, &mod, new(big.Int), 500000, data)
 	case "vcreate":
 		v := val()
 		return stk(v.Operator, staking.ValidatorCreate, &staking.TxCreateValidator{Name: v.Name, OperatorAddress: v.Operator.Addr, Coinbase: v.Coinbase,
